@@ -94,7 +94,7 @@ HitCount(c, a, b) == Cardinality({ k \in a..(b - 1) : CalHit(c, k) })
 Picked(p, S, r) == { p.uses[u].worker : u \in UsedOf(S, UsesOfReq(p, r)) }
 
 ---------------------------------------------------------------------------
-RECURSIVE Holds(_, _, _), HoldsOp(_, _, _)
+RECURSIVE Holds(_, _, _), HoldsOp(_, _, _), OpOpen(_, _, _), UnspecCon(_, _, _)
 
 HoldsOp(p, S, o) == IF o.t = "con" THEN Holds(p, S, p.cons[o.i])
                     ELSE EvalB(p, S, o.e)
@@ -201,10 +201,13 @@ Holds(p, S, c) ==
             Picked(p, S, c.r1) \cap Picked(p, S, c.r2) = {}
     \* ---- logic
     [] c.cls = "ConstraintFromExpression" -> EvalB(p, S, c.expr)
-    [] c.cls = "Not" -> ~HoldsOp(p, S, c.x)
+    \* Holds is the WEAKEST reading in a corner the documentation leaves open (UnspecCon); under a negation
+    \* the weakest reading of the combination takes the operand's strongest one: an operand that is in an
+    \* open corner (OpOpen) may count as false as well as true
+    [] c.cls = "Not" -> ~HoldsOp(p, S, c.x) \/ OpOpen(p, S, c.x)
     [] c.cls = "And" -> \A i \in 1..Len(c.xs) : HoldsOp(p, S, c.xs[i])
     [] c.cls = "Or"  -> \E i \in 1..Len(c.xs) : HoldsOp(p, S, c.xs[i])
-    [] c.cls = "Xor" -> HoldsOp(p, S, c.x) # HoldsOp(p, S, c.y)
+    [] c.cls = "Xor" -> (HoldsOp(p, S, c.x) # HoldsOp(p, S, c.y)) \/ OpOpen(p, S, c.x) \/ OpOpen(p, S, c.y)
     [] c.cls = "Implies" ->
          EvalB(p, S, c.cond) => \A i \in 1..Len(c.xs) : HoldsOp(p, S, c.xs[i])
     [] c.cls = "IfThenElse" ->
@@ -271,7 +274,25 @@ UnspecCon(p, S, c) ==
          LET us == UsedOf(S, UsesOfRes(p, c.res))
          IN  IF \E a, b \in us : a # b /\ (S.bs[a] = S.bs[b] \/ S.be[a] = S.be[b])
              THEN {"resource-order-coinciding-times"} ELSE {}
-    [] c.cls \in {"Not", "Xor"} ->
+    [] c.cls = "Not" ->
          (IF OpTouches(p, S, c.x) THEN {"expression-over-unscheduled-task"} ELSE {})
+         \cup (IF OpOpen(p, S, c.x) THEN {"negated-operand-in-open-corner"} ELSE {})
+    [] c.cls = "Xor" ->
+         (IF OpTouches(p, S, c.x) \/ OpTouches(p, S, c.y) THEN {"expression-over-unscheduled-task"} ELSE {})
+         \cup (IF OpOpen(p, S, c.x) \/ OpOpen(p, S, c.y) THEN {"negated-operand-in-open-corner"} ELSE {})
     [] OTHER -> {}
+
+\* the operands of a logical combination
+OperandsOf(c) ==
+  CASE c.cls = "Not" -> <<c.x>>
+    [] c.cls = "Xor" -> <<c.x, c.y>>
+    [] c.cls \in {"And", "Or", "Implies"} -> c.xs
+    [] c.cls = "IfThenElse" -> c.xs \o c.ys
+    [] OTHER -> <<>>
+
+\* the operand, or something inside it, is in a corner the documentation leaves open for schedule S
+OpOpen(p, S, o) ==
+  IF o.t = "expr" THEN Touches(p, S, o.e)
+  ELSE LET c == p.cons[o.i]
+       IN  UnspecCon(p, S, c) # {} \/ \E i \in 1..Len(OperandsOf(c)) : OpOpen(p, S, OperandsOf(c)[i])
 =============================================================================
